@@ -325,4 +325,490 @@ Section Step.
       rewrite Hacc. apply (setcnt_R c s h a dy e n b (n - 1) HR Ha Hs Hnr). lia.
     - exact Hrd.
   Qed.
+
+  Ltac live2 h1 h2 HR HL sa Hsa a Ha sb Hsb b Hb :=
+    unfold lwith2 in HL; destruct (sget _ h1) as [sa|] eqn:Hsa; [|discriminate HL];
+    destruct (sget _ h2) as [sb|] eqn:Hsb; [|discriminate HL];
+    destruct (entry_some _ _ _ _ HR Hsa) as [a Ha]; destruct (entry_some _ _ _ _ HR Hsb) as [b Hb].
+
+  Lemma len_content c s h a sa : R c s -> lget (c_arrs c) h = Some a -> sget s h = Some sa ->
+    len (s_content s h sa) = s_cnt sa * s_esz sa.
+  Proof.
+    intros HR Ha Hs. destruct (content_eq _ _ _ _ _ HR Ha Hs) as [_ <-].
+    destruct (esz_cnt _ _ _ _ _ HR Ha Hs) as (E1 & E2 & E3 & E4 & E5 & E6 & E7).
+    destruct (acc_rd c s h a sa 0 (s_cnt sa * s_esz sa) HR Ha Hs ltac:(lia) ltac:(nia) ltac:(lia)) as [Hacc _].
+    unfold acc_ok in Hacc. unfold c_content, c_rd. rewrite E1, E2. apply len_sub; first [nia|lia].
+  Qed.
+
+  Lemma c_resize_arrs c h a n : exists v, c_arrs (c_resize junk c h a n) = lset (c_arrs c) h v.
+  Proof.
+    unfold c_resize. destruct (sc_array_resize (a_esz a) (a_cnt a) (a_balloc a) n) as [[[cnt' balloc'] act] arg].
+    destruct (act =? 1).
+    - unfold c_reset. destruct (sc_array_reset (a_esz a) (a_cnt a) (a_balloc a) (a_off a)) as [[[x1 x2] x3] x4].
+      eexists. unfold set_arr, set_arrs. simpl. destruct (x4 =? 5); [rewrite c_free_arrs|]; reflexivity.
+    - destruct (act =? 2).
+      + unfold c_realloc. destruct (a_blk a) as [|bk].
+        * unfold c_malloc. cbv zeta. eexists. reflexivity.
+        * destruct (arg =? 0).
+          -- eexists. unfold set_arr, set_arrs. simpl. reflexivity.
+          -- eexists. reflexivity.
+      + eexists. reflexivity.
+  Qed.
+
+  Lemma s_content_frame s h v src sb : fst (s_root src sb) <> h -> s_content (s_set s h v) src sb = s_content s src sb.
+  Proof.
+    intros Hne. unfold s_content, s_rd. destruct (s_root src sb) as [r base]. simpl in Hne.
+    unfold s_rbytes. rewrite sget_set_other by congruence. reflexivity.
+  Qed.
+
+  Lemma sim_copy c s dst src : R c s -> legal_step s (OCopy dst src) = true -> sim c s (OCopy dst src).
+  Proof.
+    intros HR HL. cbn [ArrayModel.legal_step] in HL. live2 dst src HR HL sa Hsa a Ha sb Hsb b Hb.
+    apply andb_prop in HL. destruct HL as [HL Le]. apply andb_prop in HL. destruct HL as [Hof Lne].
+    destruct (owner_free_own _ _ _ Hof) as (dy & e & n & bb & -> & Hnr). simpl in Le.
+    assert (Hne : dst <> src) by (intros ->; rewrite Nat.eqb_refl in Lne; discriminate).
+    destruct (esz_cnt _ _ _ _ _ HR Hb Hsb) as (E1 & E2 & E3 & E4 & E5 & E6 & E7).
+    pose proof (entry_own _ _ _ _ _ _ _ _ HR Ha Hsa) as (H1 & H2 & H3 & H4 & H5 & H6 & _).
+    assert (Hrt : fst (s_root src sb) <> dst).
+    { destruct sb as [|dy' r boff e' n' cap]; simpl; [congruence|]. eapply (rooted_false _ _ Hnr); exact Hsb. }
+    pose proof (len_content _ _ _ _ _ HR Hb Hsb) as Hlc.
+    pose proof (resize_resized junk c s dst a dy e n bb (s_cnt sb) HR Ha Hsa Hnr ltac:(lia) ltac:(nia)) as Hres.
+    destruct (resized_wr _ s dst dy e n bb (s_cnt sb) 0 (s_content s src sb) Hres ltac:(lia) ltac:(lia) H5 ltac:(nia) ltac:(nia)) as (a1 & Ha1 & HW).
+    destruct Hres as (X & HR1 & _).
+    destruct (c_resize_arrs c dst a (s_cnt sb)) as [v Hv].
+    assert (Hb1 : lget (c_arrs (c_resize junk c dst a (s_cnt sb))) src = Some b).
+    { rewrite Hv. rewrite lget_lset_other by exact Hne. exact Hb. }
+    assert (Hsb1 : sget (s_set s dst (Some (SOwn dy e (s_cnt sb) X))) src = Some sb) by (rewrite sget_set_other by exact Hne; exact Hsb).
+    destruct (content_eq _ _ _ _ _ HR1 Hb1 Hsb1) as [Hchk Hcont].
+    rewrite s_content_frame in Hcont by exact Hrt.
+    expose. unfold with2, swith2, cget. rewrite Ha, Hb, Hsa, Hsb. rewrite E1, E2.
+    destruct ((s_cnt sb =? 0) || (s_esz sb =? 0)) eqn:Ez.
+    - split; [|reflexivity]. cbn [fst]. assert (s_cnt sb = 0) by lia.
+      rewrite (len0_nil (s_content s src sb)) in HW by nia. rewrite (len0_nil (s_content s src sb)) by nia. exact HW.
+    - unfold cget. rewrite Ha1. split; [|reflexivity]. cbn [fst]. rewrite Hchk, Hcont. exact HW.
+  Qed.
+
+  Lemma sim_copyinto c s dst o src : R c s -> legal_step s (OCopyInto dst o src) = true -> sim c s (OCopyInto dst o src).
+  Proof.
+    intros HR HL. cbn [ArrayModel.legal_step] in HL. live2 dst src HR HL sa Hsa a Ha sb Hsb b Hb. bools HL.
+    destruct (esz_cnt _ _ _ _ _ HR Ha Hsa) as (A1 & A2 & A3 & A4 & A5 & A6 & A7).
+    destruct (esz_cnt _ _ _ _ _ HR Hb Hsb) as (E1 & E2 & E3 & E4 & E5 & E6 & E7).
+    pose proof (len_content _ _ _ _ _ HR Hb Hsb) as Hlc.
+    destruct (content_eq _ _ _ _ _ HR Hb Hsb) as [Hchk Hcont].
+    expose. unfold with2, swith2, cget. rewrite Ha, Hb, Hsa, Hsb. rewrite E1, E2, A1.
+    destruct ((s_cnt sb =? 0) || (s_esz sb =? 0)) eqn:Ez.
+    - split; [|reflexivity]. cbn [fst]. rewrite (len0_nil (s_content s src sb)) by nia. exact HR.
+    - split; [|reflexivity]. cbn [fst]. rewrite Hchk, Hcont.
+      apply (write_R c s dst a sa _ _ HR Ha Hsa); nia.
+  Qed.
+
+  Lemma sim_move c s dst od src os n : R c s -> legal_step s (OMovePart dst od src os n) = true -> sim c s (OMovePart dst od src os n).
+  Proof.
+    intros HR HL. cbn [ArrayModel.legal_step] in HL. live2 dst src HR HL sa Hsa a Ha sb Hsb b Hb. bools HL.
+    destruct (esz_cnt _ _ _ _ _ HR Ha Hsa) as (A1 & A2 & A3 & A4 & A5 & A6 & A7).
+    destruct (esz_cnt _ _ _ _ _ HR Hb Hsb) as (E1 & E2 & E3 & E4 & E5 & E6 & E7).
+    destruct (acc_rd c s src b sb (os * s_esz sb) (n * s_esz sb) HR Hb Hsb ltac:(nia) ltac:(nia) ltac:(nia)) as [Hacc Hrd].
+    expose. unfold with2, swith2, cget. rewrite Ha, Hb, Hsa, Hsb. rewrite E1, A1.
+    destruct ((n =? 0) || (s_esz sb =? 0)) eqn:Ez.
+    - split; [|reflexivity]. cbn [fst]. assert (n = 0) by lia. subst n. rewrite Z.mul_0_l. unfold s_rd.
+      destruct (s_root src sb). rewrite sub_nil_n. exact HR.
+    - split; [|reflexivity]. cbn [fst]. unfold c_chk. rewrite Hacc, Hrd.
+      assert (Hl : len (s_rd s src sb (os * s_esz sb) (n * s_esz sb)) = n * s_esz sb).
+      { rewrite <- Hrd. unfold acc_ok in Hacc. unfold c_rd. apply len_sub; first [nia|lia]. }
+      apply (write_R c s dst a sa _ _ HR Ha Hsa); nia.
+  Qed.
+
+  Lemma sim_memset c s h v : R c s -> legal_step s (OMemset h v) = true -> sim c s (OMemset h v).
+  Proof.
+    intros HR HL. cbn [ArrayModel.legal_step] in HL. live1 h HR HL sa Hs a Ha.
+    destruct (esz_cnt _ _ _ _ _ HR Ha Hs) as (E1 & E2 & E3 & E4 & E5 & E6 & E7).
+    expose. unfold with1, swith1, cget. rewrite Ha, Hs. rewrite E1, E2. split; [|reflexivity]. cbn [fst].
+    apply (write_R c s h a sa _ _ HR Ha Hs); [lia|]. rewrite len_repeat. nia.
+  Qed.
+
+  Lemma sim_set c s h i d : R c s -> legal_step s (OSet h i d) = true -> sim c s (OSet h i d).
+  Proof.
+    intros HR HL. cbn [ArrayModel.legal_step] in HL. live1 h HR HL sa Hs a Ha. bools HL.
+    destruct (esz_cnt _ _ _ _ _ HR Ha Hs) as (E1 & E2 & E3 & E4 & E5 & E6 & E7).
+    expose. unfold with1, swith1, cget. rewrite Ha, Hs. rewrite E1, E2. rewrite index_val by nia.
+    replace (a_off a + s_esz sa * i - a_off a) with (i * s_esz sa) by lia.
+    split; [|reflexivity]. cbn [fst]. apply (write_R c s h a sa _ _ HR Ha Hs); nia.
+  Qed.
+
+  Lemma sim_index c s h i : R c s -> legal_step s (OIndex h i) = true -> sim c s (OIndex h i).
+  Proof.
+    intros HR HL. cbn [ArrayModel.legal_step] in HL. live1 h HR HL sa Hs a Ha. bools HL.
+    destruct (esz_cnt _ _ _ _ _ HR Ha Hs) as (E1 & E2 & E3 & E4 & E5 & E6 & E7).
+    expose. unfold with1, swith1, cget. rewrite Ha, Hs. rewrite E1, E2. rewrite index_val by nia. cbv zeta.
+    replace (a_off a + s_esz sa * i - a_off a) with (i * s_esz sa) by lia.
+    destruct (acc_rd c s h a sa (i * s_esz sa) (s_esz sa) HR Ha Hs ltac:(nia) ltac:(lia) ltac:(nia)) as [Hacc Hrd].
+    unfold c_chk. rewrite Hacc. split; [exact HR|exact Hrd].
+  Qed.
+
+  (* ---------- element-level facts ------------------------------------------------------------------------------------ *)
+  Lemma s_elems_forall c s h a sa : R c s -> lget (c_arrs c) h = Some a -> sget s h = Some sa ->
+    Forall (fun x => len x = s_esz sa) (s_elems s h sa) /\ length (s_elems s h sa) = Z.to_nat (s_cnt sa).
+  Proof.
+    intros HR Ha Hs. destruct (esz_cnt _ _ _ _ _ HR Ha Hs) as (E1 & E2 & E3 & E4 & E5 & E6 & E7).
+    pose proof (len_content _ _ _ _ _ HR Ha Hs) as Hl. unfold s_elems. split; [|apply elems_length].
+    apply elems_forall; lia.
+  Qed.
+
+  Lemma perm_concat_len (l l' : list (list Z)) : Permutation l l' -> len (concat l) = len (concat l').
+  Proof.
+    induction 1; simpl; rewrite ?len_app; lia.
+  Qed.
+
+  Lemma concat_elems_len c s h a sa : R c s -> lget (c_arrs c) h = Some a -> sget s h = Some sa ->
+    len (concat (s_elems s h sa)) = s_cnt sa * s_esz sa.
+  Proof.
+    intros HR Ha Hs. destruct (s_elems_forall _ _ _ _ _ HR Ha Hs) as [Hf Hlen].
+    destruct (esz_cnt _ _ _ _ _ HR Ha Hs) as (E1 & E2 & E3 & E4 & E5 & E6 & E7).
+    rewrite (len_concat_forall _ _ Hf). rewrite Hlen. lia.
+  Qed.
+
+  Lemma sim_sort c s h : R c s -> legal_step s (OSort h) = true -> sim c s (OSort h).
+  Proof.
+    intros HR HL. cbn [ArrayModel.legal_step] in HL. live1 h HR HL sa Hs a Ha.
+    destruct (content_eq _ _ _ _ _ HR Ha Hs) as [Hchk _]. pose proof (elems_eq _ _ _ _ _ HR Ha Hs) as Hel.
+    expose. unfold with1, swith1, cget. rewrite Ha, Hs. rewrite Hchk, Hel. split; [|reflexivity]. cbn [fst].
+    apply (write_R c s h a sa _ _ HR Ha Hs); [lia|].
+    rewrite (perm_concat_len _ _ (sort_perm _)). rewrite (concat_elems_len _ _ _ _ _ HR Ha Hs). lia.
+  Qed.
+
+  Lemma uniq_spec_incl l x : In x (uniq_spec cmp l) -> In x l.
+  Proof.
+    induction l as [|y r IH]; simpl; [auto|]. destruct r as [|z r'].
+    - auto.
+    - destruct (cmp y z =? 0).
+      + intros H. right. apply IH. exact H.
+      + intros [H|H]; [left; exact H|right; apply IH; exact H].
+  Qed.
+
+  Lemma uniq_spec_length l : (length (uniq_spec cmp l) <= length l)%nat.
+  Proof.
+    induction l as [|y r IH]; simpl; [lia|]. destruct r as [|z r'].
+    - simpl. lia.
+    - destruct (cmp y z =? 0); simpl in *; lia.
+  Qed.
+
+  Lemma lset_same {A} (l : list (option A)) h x : lget l h = Some x -> lset l h (Some x) = l.
+  Proof.
+    revert l; induction h as [|h IH]; intros [|y r]; unfold lget; simpl; try discriminate.
+    - intros ->. reflexivity.
+    - intros H. f_equal. apply IH. exact H.
+  Qed.
+
+  Lemma s_set_same s h x : sget s h = Some x -> s_set s h (Some x) = s.
+  Proof. intros H. unfold s_set. rewrite (lset_same _ _ _ H). destruct s; reflexivity. Qed.
+
+  Lemma c_wr_arrs c a p d : c_arrs (c_wr c a p d) = c_arrs c.
+  Proof. unfold c_wr. destruct d; [reflexivity|]. unfold c_chk. destruct (acc_ok c a p (len (z :: d))); reflexivity. Qed.
+
+  Lemma s_wr'_own s h dy e n b d : sget s h = Some (SOwn dy e n b) -> len d <= len b ->
+    exists b1, s_wr' s h (SOwn dy e n b) 0 d = s_set s h (Some (SOwn dy e n b1)) /\ sub b1 0 (len d) = d.
+  Proof.
+    intros Hs Hl. unfold s_wr'. destruct d as [|x d'].
+    - exists b. rewrite (s_set_same _ _ _ Hs). split; reflexivity.
+    - unfold s_wr, s_root. rewrite Hs. eexists. split; [reflexivity|]. apply sub_upd_same; lia.
+  Qed.
+
+  Lemma sim_uniq c s h : R c s -> legal_step s (OUniq h) = true -> sim c s (OUniq h).
+  Proof.
+    intros HR HL. cbn [ArrayModel.legal_step] in HL. live1 h HR HL sa Hs a Ha.
+    destruct (owner_free_own _ _ _ HL) as (dy & e & n & b & -> & Hnr).
+    destruct (content_eq _ _ _ _ _ HR Ha Hs) as [Hchk _]. pose proof (elems_eq _ _ _ _ _ HR Ha Hs) as Hel.
+    destruct (s_elems_forall _ _ _ _ _ HR Ha Hs) as [Hf Hlen]. simpl in Hf, Hlen.
+    pose proof (entry_own _ _ _ _ _ _ _ _ HR Ha Hs) as (H1 & H2 & H3 & H4 & H5 & H6 & H7 & H8 & _).
+    pose proof (own_X_len _ _ _ _ _ _ _ _ HR Ha Hs) as Hlb.
+    expose. unfold with1, swith1, cget. rewrite Ha, Hs. rewrite H3. rewrite uniq_ok, Hel, Hchk.
+    set (l := s_elems s h (SOwn dy e n b)) in *. set (l' := uniq_spec cmp l).
+    assert (Hf' : Forall (fun x => len x = e) l').
+    { apply Forall_forall. intros x Hx. rewrite Forall_forall in Hf. apply Hf. eapply uniq_spec_incl. exact Hx. }
+    pose proof (uniq_spec_length l) as Hll. fold l' in Hll.
+    pose proof (len_concat_forall _ _ Hf') as Hlc.
+    destruct (n =? 0) eqn:En.
+    - assert (Hn0 : n = 0) by lia. split; [|reflexivity]. cbn [fst].
+      assert (Hl0 : l = []) by (destruct l; [reflexivity|simpl in Hlen; lia]).
+      subst l'. rewrite Hl0. cbn [uniq_spec length concat s_resize_wr Z.of_nat Z.to_nat firstn app].
+      rewrite (len0_nil b) in Hs by lia. rewrite Hn0 in Hs. rewrite (s_set_same _ _ _ Hs). exact HR.
+    - split; [|reflexivity]. cbn [fst].
+      set (d := concat l') in *. set (n' := Z.of_nat (length l')) in *.
+      pose proof (write_R c s h a _ 0 d HR Ha Hs ltac:(lia) ltac:(simpl; nia)) as HW.
+      set (c1 := c_wr c a 0 d) in *.
+      assert (Ha1 : lget (c_arrs c1) h = Some a) by (subst c1; rewrite c_wr_arrs; exact Ha).
+      assert (Hs1 : exists b1, s_wr' s h (SOwn dy e n b) 0 d = s_set s h (Some (SOwn dy e n b1)) /\ sub b1 0 (len d) = d).
+      { apply s_wr'_own; [exact Hs|]. rewrite Hlb. nia. }
+      destruct Hs1 as (b1 & Es1 & Hb1). rewrite Es1 in HW.
+      assert (Hnr1 : rooted (s_set s h (Some (SOwn dy e n b1))) h = false) by (apply rooted_set; [exact Hnr|intros; discriminate]).
+      assert (Hcr : can_resize (s_set s h (Some (SOwn dy e n b1))) h (SOwn dy e n b1) n' = true).
+      { unfold can_resize. simpl. rewrite Hnr1. simpl. rewrite MAXB_val in *. nia. }
+      destruct (resize_wr_R c1 _ h a _ n' (n' * e) [] HW Ha1 (sget_set_same _ _ _) Hcr ltac:(simpl; nia) ltac:(simpl; rewrite len_nil; lia)) as (a2 & Ha2 & HW2).
+      rewrite c_wr_nil in HW2.
+      replace (s_resize_wr s h (SOwn dy e n b) n' 0 d) with
+          (s_resize_wr (s_set s h (Some (SOwn dy e n b1))) h (SOwn dy e n b1) n' (n' * e) []); [exact HW2|].
+      unfold s_resize_wr. rewrite s_set_set. f_equal. f_equal. f_equal. rewrite app_nil_r. simpl.
+      rewrite <- sub_0_firstn. replace (n' * e) with (len d) by lia. exact Hb1.
+  Qed.
+
+  Lemma sim_issorted c s h : R c s -> legal_step s (OIsSorted h) = true -> sim c s (OIsSorted h).
+  Proof.
+    intros HR HL. cbn [ArrayModel.legal_step] in HL. live1 h HR HL sa Hs a Ha.
+    destruct (content_eq _ _ _ _ _ HR Ha Hs) as [Hchk _]. pose proof (elems_eq _ _ _ _ _ HR Ha Hs) as Hel.
+    expose. unfold with1, swith1, cget. rewrite Ha, Hs, Hchk, Hel. split; [exact HR|reflexivity].
+  Qed.
+
+  Lemma sim_bsearch c s h key : R c s -> legal_step s (OBsearch h key) = true -> sim c s (OBsearch h key).
+  Proof.
+    intros HR HL. cbn [ArrayModel.legal_step] in HL. live1 h HR HL sa Hs a Ha.
+    destruct (content_eq _ _ _ _ _ HR Ha Hs) as [Hchk _]. pose proof (elems_eq _ _ _ _ _ HR Ha Hs) as Hel.
+    expose. unfold with1, swith1, cget. rewrite Ha, Hs, Hchk, Hel. split; [exact HR|reflexivity].
+  Qed.
+
+  Lemma sim_checksum c s h : R c s -> legal_step s (OChecksum h) = true -> sim c s (OChecksum h).
+  Proof.
+    intros HR HL. cbn [ArrayModel.legal_step] in HL. live1 h HR HL sa Hs a Ha.
+    destruct (content_eq _ _ _ _ _ HR Ha Hs) as [Hchk Hc].
+    destruct (esz_cnt _ _ _ _ _ HR Ha Hs) as (E1 & E2 & _).
+    expose. unfold with1, swith1, cget. rewrite Ha, Hs, E2. destruct (s_cnt sa =? 0).
+    - split; [exact HR|reflexivity].
+    - rewrite Hchk, Hc. split; [exact HR|reflexivity].
+  Qed.
+
+  Lemma sim_isperm c s h : R c s -> legal_step s (OIsPerm h) = true -> sim c s (OIsPerm h).
+  Proof.
+    intros HR HL. cbn [ArrayModel.legal_step] in HL. live1 h HR HL sa Hs a Ha.
+    destruct (content_eq _ _ _ _ _ HR Ha Hs) as [Hchk _]. pose proof (elems_eq _ _ _ _ _ HR Ha Hs) as Hel.
+    expose. unfold with1, swith1, cget. rewrite Ha, Hs, Hchk, Hel. split; [|reflexivity]. cbn [fst].
+    eapply R_ext; [exact HR| | | | |]; unfold add_counts; simpl; try reflexivity; lia.
+  Qed.
+
+  Lemma sim_isequal c s h1 h2 : R c s -> legal_step s (OIsEqual h1 h2) = true -> sim c s (OIsEqual h1 h2).
+  Proof.
+    intros HR HL. cbn [ArrayModel.legal_step] in HL. live2 h1 h2 HR HL sa Hsa a Ha sb Hsb b Hb.
+    destruct (content_eq _ _ _ _ _ HR Ha Hsa) as [Hchka Hca]. destruct (content_eq _ _ _ _ _ HR Hb Hsb) as [Hchkb Hcb].
+    destruct (esz_cnt _ _ _ _ _ HR Ha Hsa) as (A1 & A2 & _). destruct (esz_cnt _ _ _ _ _ HR Hb Hsb) as (E1 & E2 & _).
+    expose. unfold with2, swith2, cget. rewrite Ha, Hb, Hsa, Hsb. rewrite A1, A2, E1, E2.
+    destruct (s_esz sa =? s_esz sb); cbn [negb orb andb]; [|split; [exact HR|reflexivity]].
+    destruct (s_cnt sa =? s_cnt sb); cbn [negb orb andb]; [|split; [exact HR|reflexivity]].
+    rewrite Hchka, Hchkb, Hca, Hcb. split; [exact HR|reflexivity].
+  Qed.
+
+  (* ---------- two-array operations: split and permute --------------------------------------------------------------------- *)
+  Lemma resize_mid c s h a sa n' : R c s -> lget (c_arrs c) h = Some a -> sget s h = Some sa -> can_resize s h sa n' = true ->
+    exists v, R (c_resize junk c h a n') (s_set s h v).
+  Proof.
+    intros HR Ha Hs Hcr. destruct sa as [dy e n b|dy r boff e n cap].
+    - destruct (can_resize_own _ _ _ _ _ _ _ Hcr) as (G1 & G2 & G3).
+      destruct (resize_resized junk c s h a dy e n b n' HR Ha Hs G3 G1 G2) as (X & HX & _). eexists. exact HX.
+    - destruct (can_resize_view _ _ _ _ _ _ _ _ _ Hcr) as (G1 & G2).
+      eexists. eapply resize_view_R; eassumption.
+  Qed.
+
+  Lemma root_is_owner c s h sa : R c s -> sget s h = Some sa -> exists dy e n b, sget s (fst (s_root h sa)) = Some (SOwn dy e n b).
+  Proof.
+    intros HR Hs. destruct sa as [dy e n b|dy r boff e n cap]; simpl.
+    - eauto.
+    - destruct (entry_some _ _ _ _ HR Hs) as [a Ha].
+      pose proof (entry_view _ _ _ _ _ _ _ _ _ _ HR Ha Hs) as (_ & _ & _ & _ & _ & _ & _ & _ & _ & _ & ra & rdyn & re & rn & rb & _ & Hrs & _).
+      unfold sget. eauto.
+  Qed.
+
+  Lemma root_ne_other c s h sa p sp : R c s -> sget s h = Some sa -> sget s p = Some sp -> root_ne h sa p sp = true ->
+    fst (s_root h sa) <> p.
+  Proof.
+    intros HR Hs Hp Hne E. destruct (root_is_owner _ _ _ _ HR Hs) as (dy & e & n & b & Ho). rewrite E in Ho.
+    rewrite Hp in Ho. inversion Ho; subst sp. unfold root_ne in Hne. simpl in Hne. rewrite E, Nat.eqb_refl in Hne. discriminate.
+  Qed.
+
+  Lemma s_wr'_sget_other s h sa q d p : fst (s_root h sa) <> p -> sget (s_wr' s h sa q d) p = sget s p.
+  Proof.
+    intros Hne. unfold s_wr'. destruct d; [reflexivity|]. unfold s_wr. destruct (s_root h sa) as [r base]. simpl in Hne.
+    destruct (sget s r) as [[dy e n b|]|]; try reflexivity. apply sget_set_other. exact Hne.
+  Qed.
+
+  Lemma len_le_enc n v : len (le_enc n v) = Z.of_nat n.
+  Proof. revert v; induction n as [|n IH]; intros v; [reflexivity|]. cbn [le_enc]. specialize (IH (v / 256)). unfold len in *. cbn [length]. lia. Qed.
+
+  Lemma len_concat_le64 (l : list Z) : len (concat (map le64_enc l)) = 8 * Z.of_nat (length l).
+  Proof.
+    induction l as [|x r IH]; [reflexivity|]. cbn [map concat length]. rewrite len_app, IH. unfold le64_enc. rewrite len_le_enc. lia.
+  Qed.
+
+  Lemma split_spec_length types T : length (split_spec types T) = S (Z.to_nat T).
+  Proof. unfold split_spec. rewrite map_length, seq_length. reflexivity. Qed.
+
+  Lemma sim_split c s h offs T : R c s -> legal_step s (OSplit h offs T) = true -> sim c s (OSplit h offs T).
+  Proof.
+    intros HR HL. cbn [ArrayModel.legal_step] in HL. live2 h offs HR HL sa Hsa a Ha sao Hsao ao Hao.
+    apply andb_prop in HL. destruct HL as [HL Lt]. apply andb_prop in Lt. destruct Lt as [Lsorted Lrange].
+    apply andb_prop in HL. destruct HL as [HL Lne]. apply andb_prop in HL. destruct HL as [HL Lcr].
+    apply andb_prop in HL. destruct HL as [L8 LT].
+    destruct (esz_cnt _ _ _ _ _ HR Hao Hsao) as (O1 & O2 & O3 & O4 & O5 & O6 & O7).
+    assert (Hho : h <> offs).
+    { intros ->. rewrite Hsa in Hsao. inversion Hsao; subst sao. unfold root_ne in Lne. rewrite Nat.eqb_refl in Lne. discriminate. }
+    pose proof (root_ne_other _ _ _ _ _ _ HR Hsa Hsao Lne) as Hrt.
+    destruct (resize_mid c s offs ao sao (T + 1) HR Hao Hsao Lcr) as [v HR1].
+    destruct (c_resize_arrs c offs ao (T + 1)) as [w Hw].
+    assert (Ha1 : lget (c_arrs (c_resize junk c offs ao (T + 1))) h = Some a).
+    { rewrite Hw. rewrite lget_lset_other by congruence. exact Ha. }
+    assert (Hsa1 : sget (s_set s offs v) h = Some sa) by (rewrite sget_set_other by congruence; exact Hsa).
+    destruct (content_eq _ _ _ _ _ HR1 Ha1 Hsa1) as [Hchk _].
+    pose proof (elems_eq _ _ _ _ _ HR1 Ha1 Hsa1) as Hel.
+    assert (Hel2 : s_elems (s_set s offs v) h sa = s_elems s h sa) by (unfold s_elems; rewrite s_content_frame by exact Hrt; reflexivity).
+    rewrite Hel2 in Hel.
+    set (types := map tyf (s_elems s h sa)) in *.
+    pose proof (split_ok types T ltac:(lia) Lsorted Lrange) as Hsp.
+    set (d := concat (map le64_enc (split_spec types T))).
+    assert (Hld : len d = (T + 1) * s_esz sao).
+    { subst d. rewrite len_concat_le64, split_spec_length. lia. }
+    destruct (resize_wr_R c s offs ao sao (T + 1) 0 d HR Hao Hsao Lcr ltac:(nia) ltac:(lia)) as (a1 & Hao1 & HW).
+    expose. unfold with2, swith2, cget. rewrite Ha, Hao, Hsa, Hsao. unfold cget. rewrite Hao1, Hel. fold types. rewrite Hsp.
+    split; [|reflexivity]. cbn [fst]. rewrite Hchk. exact HW.
+  Qed.
+
+  Lemma permute_spec_length (l : list (list Z)) ni : length (permute_spec l ni) = length l.
+  Proof. unfold permute_spec. rewrite map_length, seq_length. reflexivity. Qed.
+
+  Lemma sim_permute c s h p keep : R c s -> legal_step s (OPermute h p keep) = true -> sim c s (OPermute h p keep).
+  Proof.
+    intros HR HL. cbn [ArrayModel.legal_step] in HL. live2 h p HR HL sa Hsa a Ha sp Hsp ap Hap. bools HL.
+    destruct (esz_cnt _ _ _ _ _ HR Ha Hsa) as (A1 & A2 & A3 & A4 & A5 & A6 & A7).
+    destruct (esz_cnt _ _ _ _ _ HR Hap Hsp) as (P1 & P2 & P3 & P4 & P5 & P6 & P7).
+    pose proof (root_ne_other _ _ _ _ _ _ HR Hsa Hsp L0) as Hrt.
+    destruct (content_eq _ _ _ _ _ HR Ha Hsa) as [Hchka _]. destruct (content_eq _ _ _ _ _ HR Hap Hsp) as [Hchkp _].
+    pose proof (elems_eq _ _ _ _ _ HR Ha Hsa) as Hela. pose proof (elems_eq _ _ _ _ _ HR Hap Hsp) as Help.
+    destruct (s_elems_forall _ _ _ _ _ HR Ha Hsa) as [Hfa Hlena]. destruct (s_elems_forall _ _ _ _ _ HR Hap Hsp) as [Hfp Hlenp].
+    set (l := s_elems s h sa) in *. set (ni := map le_dec (s_elems s p sp)) in *.
+    assert (Hlni : length ni = length l) by (subst ni; rewrite map_length, Hlenp, Hlena; f_equal; lia).
+    destruct (permute_ok l ni Hlni ltac:(lia)) as [Hpm Hpp].
+    expose. unfold with2, swith2, cget. rewrite Ha, Hap, Hsa, Hsp. rewrite A2, Hela, Help. fold l ni.
+    destruct (s_cnt sa =? 0) eqn:En.
+    - (* empty: only the temporary allocation *)
+      split; [|reflexivity]. cbn [fst].
+      assert (Hl0 : l = []) by (destruct l; [reflexivity|simpl in Hlena; lia]).
+      rewrite Hl0. cbn [permute_spec length seq map concat s_wr'].
+      replace (if keep then s else match sget s p with Some _ | _ => s end) with s by (destruct keep; [reflexivity|rewrite Hsp; reflexivity]).
+      eapply R_ext; [exact HR| | | | |]; unfold add_counts; simpl; try reflexivity; lia.
+    - rewrite Hpm. split; [|reflexivity]. cbn [fst]. rewrite Hchka, Hchkp.
+      set (l' := permute_spec l ni) in *.
+      assert (Hld : len (concat l') = s_cnt sa * s_esz sa).
+      { rewrite (perm_concat_len _ _ Hpp). subst l. apply (concat_elems_len _ _ _ _ _ HR Ha Hsa). }
+      pose proof (write_R c s h a sa 0 (concat l') HR Ha Hsa ltac:(lia) ltac:(lia)) as HW1.
+      set (c1 := c_wr c a 0 (concat l')) in *. set (s1 := s_wr' s h sa 0 (concat l')) in *.
+      assert (Hap1 : lget (c_arrs c1) p = Some ap) by (subst c1; rewrite c_wr_arrs; exact Hap).
+      assert (Hsp1 : sget s1 p = Some sp) by (subst s1; rewrite s_wr'_sget_other by exact Hrt; exact Hsp).
+      destruct keep.
+      + eapply R_ext; [exact HW1| | | | |]; unfold add_counts; simpl; try reflexivity; lia.
+      + rewrite Hsp1.
+        assert (Hl' : length l' = length l) by apply permute_spec_length.
+        rewrite Hl'. rewrite <- (map_map Z.of_nat le64_enc).
+        set (d2 := concat (map le64_enc (map Z.of_nat (seq 0 (length l))))).
+        assert (Hld2 : len d2 = s_cnt sp * s_esz sp).
+        { subst d2. rewrite len_concat_le64, map_length, seq_length, Hlena. lia. }
+        pose proof (write_R c1 s1 p ap sp 0 d2 HW1 Hap1 Hsp1 ltac:(lia) ltac:(lia)) as HW2.
+        eapply R_ext; [exact HW2| | | | |]; unfold add_counts; simpl; try reflexivity; lia.
+  Qed.
+
+  (* ---------- every legal step, every legal history ------------------------------------------------------------------------- *)
+  Lemma exec_sim c s o : R c s -> legal_step s o = true -> sim c s o.
+  Proof.
+    intros HR HL. destruct o.
+    - apply sim_init; assumption.
+    - apply sim_initc; assumption.
+    - apply sim_view; assumption.
+    - apply sim_reshape; assumption.
+    - apply sim_data; assumption.
+    - apply sim_reset; assumption.
+    - apply sim_destroy; assumption.
+    - apply sim_drop; assumption.
+    - apply sim_truncate; assumption.
+    - apply sim_rewind; assumption.
+    - apply sim_resize; assumption.
+    - apply sim_pushc; assumption.
+    - apply sim_push; assumption.
+    - apply sim_pop; assumption.
+    - apply sim_copy; assumption.
+    - apply sim_copyinto; assumption.
+    - apply sim_move; assumption.
+    - apply sim_memset; assumption.
+    - apply sim_set; assumption.
+    - apply sim_index; assumption.
+    - apply sim_sort; assumption.
+    - apply sim_uniq; assumption.
+    - apply sim_issorted; assumption.
+    - apply sim_isequal; assumption.
+    - apply sim_bsearch; assumption.
+    - apply sim_checksum; assumption.
+    - apply sim_isperm; assumption.
+    - apply sim_split; assumption.
+    - apply sim_permute; assumption.
+  Qed.
+
+  Lemma push_R c s x : R c s -> R (push_out c x) (s_out s x).
+  Proof.
+    intros [G1 G2 G3 G4 G5 G6 G7]. constructor; simpl; try assumption.
+    rewrite G3. reflexivity.
+  Qed.
+
+  Notation c_step := (c_step junk cmp sort find adler_init adler_upd tyf).
+  Notation s_step := (s_step cmp sort find adler_init adler_upd tyf).
+
+  Lemma step_R c s o : R c s -> legal_step s o = true -> R (c_step c o) (s_step s o).
+  Proof.
+    intros HR HL. destruct (exec_sim c s o HR HL) as [H1 H2].
+    unfold ArrayModel.c_step, ArrayModel.s_step. destruct (c_exec c o) as [c' x]. destruct (s_exec s o) as [s' y].
+    simpl in *. subst y. apply push_R. exact H1.
+  Qed.
+
+  Lemma run_R ops : forall c s, R c s -> legal_from cmp sort find adler_init adler_upd tyf s ops = true -> R (fold_left c_step ops c) (fold_left s_step ops s).
+  Proof.
+    induction ops as [|o r IH]; intros c s HR HL; simpl in *; [exact HR|].
+    apply andb_prop in HL. destruct HL as [H1 H2]. apply IH; [apply step_R; assumption|exact H2].
+  Qed.
+
+  (* observables agree *)
+  Lemma R_obs c s h : R c s -> cobs c h = sobs s h.
+  Proof.
+    intros HR. unfold cobs, sobs, cget.
+    destruct (sget s h) as [sa|] eqn:Hs.
+    - destruct (entry_some _ _ _ _ HR Hs) as [a Ha]. rewrite Ha.
+      destruct (esz_cnt _ _ _ _ _ HR Ha Hs) as (E1 & _). rewrite E1. f_equal. f_equal.
+      apply (elems_eq _ _ _ _ _ HR Ha Hs).
+    - rewrite (entry_none _ _ _ HR Hs). reflexivity.
+  Qed.
+
+  (* the concrete invariant, stated without reference to the abstract machine *)
+  Definition Inv (c : cstate) : Prop :=
+    (forall h a, lget (c_arrs c) h = Some a ->
+       0 < a_esz a /\ 0 <= a_cnt a /\ 0 <= a_off a /\
+       a_cnt a * a_esz a <= a_cap a /\                                     (* count * size <= allocation | view length *)
+       a_off a + a_cap a <= len (hget (c_heap c) (a_blk a)) /\               (* and that lies inside the block *)
+       (is_owner a = true -> a_off a = 0 /\ len (hget (c_heap c) (a_blk a)) = a_balloc a)) /\
+    uniq_blk (c_arrs c) /\                                                   (* no block has two owners *)
+    c_mallocs c - c_frees c = ledger (c_arrs c) /\                           (* exact allocation ledger *)
+    c_bad c = false.                                                         (* no access outside an allocation or a view *)
+
+  Lemma R_Inv c s : R c s -> Inv c.
+  Proof.
+    intros HR. split; [|split; [exact (R_uniq _ _ HR)|split; [exact (R_ledger _ _ HR)|exact (R_bad _ _ HR)]]].
+    intros h a Ha. pose proof (R_entry _ _ HR h) as He. unfold entry_ok in He. rewrite Ha in He.
+    destruct (sget s h) as [[dy e n b|dy r boff e n cap]|] eqn:Hs; try contradiction.
+    - destruct (own_is_owner _ _ _ _ _ _ He) as [Hio Hcap].
+      destruct He as (H1 & H2 & H3 & H4 & H5 & H6 & H7 & H8 & H9 & H10 & H11 & H12).
+      rewrite Hcap, H2, H3, H4, H9. repeat split; try lia.
+    - destruct (view_is_view _ _ _ _ _ _ _ _ _ He) as (Hio & Hcap & Hc0).
+      destruct He as (H1 & H2 & H3 & H4 & H5 & H6 & H7 & H8 & H9 & H10 & ra & rdyn & re & rn & rb & Hra & Hrs & Hblk & Hrc).
+      pose proof (entry_own _ _ _ _ _ _ _ _ HR Hra Hrs) as (G1 & G2 & G3 & G4 & G5 & G6 & G7 & G8 & G9 & _).
+      rewrite Hcap, H2, H3, H5, Hblk, G9. repeat split; try lia. intros; congruence.
+  Qed.
+
+  Theorem refinement ops : legal cmp sort find adler_init adler_upd tyf ops = true ->
+    let c := run junk cmp sort find adler_init adler_upd tyf ops in
+    let s := run_spec cmp sort find adler_init adler_upd tyf ops in
+    (forall h, cobs c h = sobs s h) /\ c_outs c = s_outs s /\ Inv c.
+  Proof.
+    intros HL c s. assert (HR : R c s) by (apply run_R; [apply R_init|exact HL]).
+    split; [intros h; apply R_obs; exact HR|]. split; [exact (R_outs _ _ HR)|]. eapply R_Inv; exact HR.
+  Qed.
 End Step.
